@@ -149,14 +149,17 @@ class ContentElement:
 
       # detaching
 
-      if self.parent() is not None:
+      if self.parent() is not None and self.parent().is_attached():
         raise RuntimeError("Element must be removed from parent first")
 
-      self.set_region(None)
+      self._region = None
 
     else:
 
       # attaching
+
+      if self.parent() is not None and self.parent().get_doc() is not doc:
+        raise RuntimeError("Element must be attached together with its parent")
 
       for e in self.dfs_iterator():
         if e.is_attached():
